@@ -13,7 +13,7 @@ def _runs(tier):
         return [{"harness": "rgrid_selftest", "args": [], "budget": 200, "jobs": 1},
                 {"harness": "grid", "args": ["--depth-full", "2", "--depth", "2"], "budget": 230, "jobs": max(1, _N - 1)}]
     return [{"harness": "rgrid_selftest", "args": [], "budget": 900, "jobs": 1},
-            {"harness": "grid", "args": ["--depth-full", "2", "--depth", "3", "--maxdim", "3"], "budget": 2300, "jobs": max(1, _N - 1)}]
+            {"harness": "grid", "args": ["--depth-full", "2", "--depth", "3", "--maxdim", "3", "--pool", "20", "--poolsigs", "2"], "budget": 2300, "jobs": max(1, _N - 1)}]
 
 CHECKS = {
     "C05": {"runs": _runs, "level": "model_checking", "parallel_runs": 2, "deadline": {"quick": 280, "thorough": 2600},
